@@ -15,7 +15,7 @@ quantified INPUT of every theorem below: `arrivals : List (parent × message)`.
 import Kap.Proofs.C12Union
 import Kap.Proofs.C12UnionSortedF
 import Kap.Proofs.C12Join
-import Kap.Proofs.C12PairK
+import Kap.Proofs.C12PairL
 namespace Kap.Props.C12
 open Kap.C12 Kap.C12.Spec
 
@@ -194,6 +194,34 @@ example : let cfg : JCfg := { parents := 2, tol := 0, fill := .num "i:0", names 
     (((JNode.run cfg ops).2.1).filterMap (joinIntoPoint cfg)).map (·.fields) =
       [[("a.v", "i:1"), ("b.v", "i:3")], [("a.v", "i:2"), ("b.v", "i:0")], [("a.v", "i:4"), ("b.v", "i:0")], [("a.v", "i:0"), ("b.v", "i:5")]] := by
   decide
+
+/-- **Batch joins: sets of batches are paired exactly like points** — the join sets handed to `emitJoinedSet`
+over the whole run are, up to permutation, the specification's sets (per group and rounded batch time one
+set per occurrence index); hence the batches a batch join emits are the images of those sets under
+`JoinIntoBatch`, for every arrival order. -/
+theorem join_batches_by_occurrence (cfg : JCfg) (ops : List JOp) (hn : cfg.names.length = cfg.parents)
+    (hs : ∀ op ∈ ops, op.srcOf < cfg.parents) (ho : joinOrdered cfg (stepsOf ops)) :
+    ((JNode.run cfg ops).2.1).Perm (joinSetsAll cfg (pointsOf ops)) ∧
+    (((JNode.run cfg ops).2.1).filterMap (joinIntoBatch cfg)).Perm ((joinSetsAll cfg (pointsOf ops)).filterMap (joinIntoBatch cfg)) :=
+  ⟨join_sets cfg ops hn hs ho, (join_sets cfg ops hn hs ho).filterMap _⟩
+
+/-- Full-strength statement of the remaining batch clause (stated, NOT proved; evaluated on every run by the
+spec oracle on the implementation's output — hook-driven batch cases and real window()|join() tasks — and
+tied by correspondence): when the points inside every batch are in (rounded) time order, `JoinIntoBatch`
+(the merge loop with its "backup" step) yields exactly the specification's joined batch: per rounded point
+time, ascending, one point per occurrence index, inner/outer fill. -/
+def joinIntoBatch_is_joinedBatch_stmt : Prop :=
+  ∀ (cfg : JCfg) (s : JSet JMsg), s.values.length = cfg.names.length →
+    (∀ v ∈ s.values, ∀ b, v = some b → nondecreasing (b.points.map (fun p => goRound cfg.tol p.time))) →
+    joinIntoBatch cfg s = joinedBatch cfg s
+
+/-- Non-vacuity of that statement's model side: a merge with a backup step (parent 1 starts earlier) and
+duplicates at one time. -/
+example : let cfg : JCfg := { parents := 2, tol := 0, fill := .null, names := ["a", "b"], delim := ".", sname := "" }
+    let b (ps : List BPt) : JMsg := { time := 9, name := "m", grp := "", byName := false, dims := [], tags := [], fields := [], points := ps }
+    let s : JSet JMsg := { time := 9, values := [some (b [⟨2, [("v", "i:1")]⟩, ⟨2, [("v", "i:2")]⟩]), some (b [⟨1, [("v", "i:3")]⟩, ⟨2, [("v", "i:4")]⟩])] }
+    joinIntoBatch cfg s = joinedBatch cfg s ∧
+    (joinIntoBatch cfg s).map (·.points.map (·.1)) = some [1, 2, 2] := by decide
 
 /-- **join_multiset_interleaving_independent** — for any two arrival orders that are interleavings of the same
 per-parent sequences (parents time-ordered within every group), the multisets of joined points emitted
